@@ -194,6 +194,68 @@ def leg_c(ctx, rng, n):
             core.log(f"C08 leg C {k}/{n}")
 
 
+def _split(rng, n, k):
+    """a random ordered factorisation of n into k parts (parts may be 1)"""
+    fs, p, m = [], 2, n
+    while m > 1:
+        while m % p == 0:
+            fs.append(p)
+            m //= p
+        p += 1
+    parts = [1] * k
+    for f in fs:
+        parts[int(rng.integers(k))] *= f
+    return tuple(int(v) for v in parts)
+
+
+def leg_c_reshape(ctx, rng, n):
+    """reshape between EVERY pair of ranks (1-d -> 4-d, 4-d -> 1-d, ...): sizes with several prime factors, every format,
+    every compressed-axes choice of a GCXS source and an explicit compressed_axes= for the target"""
+    import sparse
+
+    for k in range(n):
+        size = int(rng.choice([12, 24, 24, 30, 36, 48, 60, 0]))
+        if size == 0:
+            src = tuple(int(v) for v in rng.permutation([0, int(rng.integers(1, 4)), int(rng.integers(1, 4))])[: int(rng.integers(1, 4))])
+            if 0 not in src:
+                src = src + (0,)
+            tgt = tuple(int(v) for v in rng.permutation([0, int(rng.integers(1, 5)), int(rng.integers(1, 3))]))
+        else:
+            src = _split(rng, size, int(rng.integers(1, 5)))
+            tgt = _split(rng, size, int(rng.integers(1, 5)))
+        fill = int(rng.choice([0, 0, 3]))
+        d = gen.dense(rng, src, fill)
+        fmt0 = str(rng.choice(["coo", "gcxs", "gcxs", "dok"]))
+        x, fmt = gen.to_format(rng, d, fmt0, fill)
+        raw = list(tgt)
+        if size and rng.random() < 0.3:
+            raw[int(rng.integers(len(raw)))] = -1
+        raw = tuple(raw)
+        calls = [(f"reshape{raw}", lambda: x.reshape(raw)), (f"sparse.reshape{raw}", lambda: sparse.reshape(x, raw))]
+        if fmt0 == "gcxs" and len(tgt) >= 2:
+            ch = gen.compressed_axes_choices(len(tgt))
+            for ca in [ch[int(i)] for i in rng.choice(len(ch), size=min(2, len(ch)), replace=False)]:
+                calls.append((f"reshape{raw} compressed_axes={list(ca)}", lambda ca=ca: x.reshape(raw, compressed_axes=ca)))
+        if len(src) > 1 and hasattr(x, "flatten"):  # DOK offers no flatten
+            calls.append(("flatten", lambda: x.flatten()))
+        for name, it in calls:
+            case = {"op": name, "format": fmt, "shape": list(src), "target": list(tgt), "fill": fill, "dense": d.tolist()}
+            ctx.case(f"C:reshape-ranks:{len(src)}->{len(tgt)}:{fmt[:4]}", case, nontrivial=bool(d.size))
+            rt = (lambda: d.flatten()) if name == "flatten" else (lambda: d.reshape(tgt))
+            msg = oracle.compare(it, rt, fill=np.asarray(fill, dtype=d.dtype))
+            if msg:
+                ctx.fail("C", name.split(" ")[0].split("(")[0], case, msg, finding=findings.classify(PID, name, case, msg))
+            else:
+                # back again: the round trip is the identity
+                try:
+                    y = it()
+                    back = oracle.compare(lambda: y.reshape(src), lambda: d, fill=np.asarray(fill, dtype=d.dtype))
+                except Exception as e:  # noqa: BLE001
+                    back = f"round trip raised {type(e).__name__}: {e}"
+                if back:
+                    ctx.fail("C", "reshape-roundtrip", case, back, finding=findings.classify(PID, name, case, back))
+
+
 def run(ctx):
     ctx.trusted = TRUSTED
     ctx.assumptions = ["NumPy's functions are the specification", "element values are small integers (exact) or halves"]
@@ -201,6 +263,9 @@ def run(ctx):
     rng = gen.rng_for(ctx.seed, PID)
     leg_a(ctx, rng, 300 if ctx.quick else 3000)
     leg_c(ctx, rng, 120 if ctx.quick else 1500)
+    leg_c_reshape(ctx, rng, 250 if ctx.quick else 4000)
     ctx.cov["rule"] = ("leg A: random COO arrays (rank 0-4, extents {0..7}, fills {0,2,-1}) x one shape operation, model vs implementation "
                        "on coords/data/shape/fill; leg C: every shape function on COO and GCXS(random compressed axes) vs NumPy; "
+                       "leg C reshape-ranks: sizes 12..60 (and zero-size), source and target of every rank 1..4, COO / GCXS (every compressed-axes choice, "
+                       "explicit compressed_axes= for the target) / DOK, reshape + flatten + round trip; "
                        "non-trivial = array has at least one element; distinct by content hash")
